@@ -28,7 +28,7 @@ INT_CAT = [0, 1, -1, 2, -2, 2 ** 24, -2 ** 24, 2 ** 53, -2 ** 53, 2 ** 63, -2 **
 SCALES = [0.1, 0.25, 1.0, 1e-3, 7.0]
 NAMES = ['a', 'b', 'c', 'x1', 'ä']
 ENUM_NAMES = ['a', 'b', 'idle', 'busy', 'on', 'off', 'x y', 'ü', '1']
-ENUM_VALUES = [-1, 0, 1, 2, 3, 5, 100, 300, 2 ** 31]
+ENUM_VALUES = [-1, 0, 1, 2, 3, 5, 100, 300, 2 ** 31, -2 ** 31, -7, 2 ** 53 + 1]
 ASCII_POOL = ['a', 'Z', '0', ' ', '"', '\\', '\n', '\t', "'", '~', '\x7f', '\x01']
 UTF8_POOL = ['ü', '€', '\U0001d11e', ' ', 'é']
 
@@ -79,7 +79,7 @@ def gen_leaf(rng, kind, small=False):
         elif r < 0.5:
             lo, hi = rng.choice([(0.05, 0.07), (0.0, 0.3), (-0.35, 0.35), (1.0, 1.5), (0.26, 0.74)])   # not grid aligned
         elif r < 0.6:
-            k = rng.choice([2 ** 31, 2 ** 45, 2 ** 53])         # far from zero: grid law region / beyond
+            k = rng.choice([2 ** 31, 2 ** 45, 2 ** 53, 2 ** 55 + 2 ** 20, 3 * 2 ** 58, 2 ** 62])   # far from zero: grid law region / beyond
             lo, hi = sorted([-k * scale * rng.choice([0, 1]), k * scale])
         else:
             a, b = sorted(rng.sample([0, 1, -1, 5, -5, 10, 100, -100, 1000, 2 ** 24, -2 ** 24], 2))
@@ -363,7 +363,7 @@ NAN = float('nan')
 INF = float('inf')
 
 WIRE_KINDS = [None, True, False, 0, 1, -1, 7, 2 ** 70, 10 ** 400, 1.0, 1.5, -0.0, NAN, INF, -INF, 1e308, '', 'a', 'abc', '5', 'YWJj',
-              'a!b@c#=d', [], [1], [1, 2, 3], ['a'], [['a', 1]], {}, {'a': 1}, {'zz': None}]
+              'a!b@c#=d', 'a\x00b', '\x00', 'YQ=', 'YR==', [], [1], [1, 2, 3], ['a'], [['a', 1]], {}, {'a': 1}, {'zz': None}]
 DRIVER_KINDS = WIRE_KINDS + [b'', b'ab', b'abc', (), (1,), (1, 2), ('a',), enum_member('a', 1), enum_member('zz', 77),
                              enum_member('off', 0)]
 
@@ -429,6 +429,53 @@ def boundary_wire_ints(tree):
         return [0, 1, -1]
     klo, khi = kb
     return [klo, khi, klo - 1, khi + 1, klo - 2, khi + 2, float(klo), float(khi), klo - 0.5, khi + 0.5, 2 ** 70, -2 ** 70]
+
+
+def leaf_paths(tree, value, kinds):
+    """(path, leaf tree) of the leaves of the given kinds present in a valid (canonical / wire) value"""
+    t = tree['t']
+    if t in kinds:
+        yield (), tree
+    elif t == 'array':
+        for i, x in enumerate(value):
+            for p, lt in leaf_paths(tree['elem'], x, kinds):
+                yield (i,) + p, lt
+    elif t == 'tuple':
+        for i, (e, x) in enumerate(zip(tree['elems'], value)):
+            for p, lt in leaf_paths(e, x, kinds):
+                yield (i,) + p, lt
+    elif t == 'struct':
+        md = dict((k, m) for k, m in tree['members'])
+        for k, x in value.items():
+            if x is not None:
+                for p, lt in leaf_paths(md[k], x, kinds):
+                    yield (k,) + p, lt
+
+
+SPECIAL_CHARS = ['\x00', '\x01', '\x7f', '\x80', '\xff', '\ud7ff', '\ue000', '\uffff', '\U00010000', '\U0010ffff', '"', '\\', '\n']
+
+
+def length_variants(rng, lt, wire):
+    """strings / blobs of length exactly min-1, min, min+1, max-1, max, max+1, and strings of a valid length holding
+    one special character (NUL, DEL, first non-ASCII, U+FFFF, the characters around the surrogate block, astral)"""
+    lo, hi = lt['min'], lt['max']
+    lengths = sorted({n for n in (lo - 1, lo, lo + 1, hi - 1, hi, hi + 1) if 0 <= n <= 400})
+    out = []
+    if lt['t'] == 'blob':
+        for n in lengths:
+            b = bytes((n + i) % 256 for i in range(n))
+            out.append(base64.b64encode(b).decode('ascii') if wire else b)
+        if wire:
+            out += ['=' * 4, 'QQ', 'QUI', 'QUJD\n', ' QUJD', 'QUJD=', 'QQ==QQ==', 'QUJ-']
+    else:
+        for n in lengths:
+            out.append('x' * n)
+        n = lo if lo > 0 else min(hi, 3)
+        for ch in SPECIAL_CHARS:
+            if n >= 1:
+                k = rng.randrange(n)
+                out.append('a' * k + ch + 'a' * (n - k - 1))
+    return out
 
 
 def numeric_leaf_paths(tree, value):
@@ -523,6 +570,9 @@ def shape_variants(rng, tree, value):
 # ---------------------------------------------------------------------------------------------
 # previous values
 # ---------------------------------------------------------------------------------------------
+ODD_PREVIOUS = [5, 0, True, 0.0, 1.5, 'ab', '', b'x', {'a': 1}, {}, [1], [], (), (None,), [None, None, None, None, None, None]]
+
+
 def gen_previous(rng, tree):
     """a value the parameter may currently hold (canonical form), or None"""
     r = rng.random()
